@@ -215,7 +215,10 @@ def conv (env : List (String × Ty)) : H → M R
           noteNat nm T (.const nm T.srt)
           pure (.z (.bv i T.srt))
       | none => failM .crash
-  | .num T q => pure (if T == .real then .z (.rlit q) else .pi q.num)
+  | .num T q =>
+      -- `-n` is a number at every type, but uminus has no meaning on nat (fix C06-9)
+      if T == .nat && q.num < 0 then failM .z3exc
+      else pure (if T == .real then .z (.rlit q) else .pi q.num)
   | .tt => pure (.z (.bconst true))
   | .ff => pure (.z (.bconst false))
   | .not a => do
@@ -331,14 +334,10 @@ def conv (env : List (String × Ty)) : H → M R
       | .pb _ => failM .crash
   | .app f dom cod a => do
       let a' ← conv env a
-      match a' with
-      | .pb _ => failM .crash
-      | r => pure (.z (.app f dom.srt cod.srt r.toZ))
+      pure (.z (.app f dom.srt cod.srt a'.toZ))
   | .mem a S dom => do
       let a' ← conv env a
-      match a' with
-      | .pb _ => failM .crash
-      | r => pure (.z (.app S dom.srt .bool r.toZ))
+      pure (.z (.app S dom.srt .bool a'.toZ))
   | .unsup _ => failM .z3exc
 
 /-- `convert(t, var_names, assms, to_real, ctx)` -/
@@ -484,7 +483,9 @@ bound variables.  Natural-number variables hold `.i n` with `0 ≤ n` (see `Admi
 def evalH (O : Oracle K) (σ : String → Val K) (F : String → Val K → Val K) : List (Val K) → H → Val K
   | _, .var x _ => σ x
   | ρ, .bv i => ρ.getD i (.b false)
-  | _, .num T q => if T == .real then .r (N.ofRat q) else .i q.num
+  | _, .num T q =>
+      if T == .nat && q.num < 0 then O.negNat (.i (-q.num))
+      else if T == .real then .r (N.ofRat q) else .i q.num
   | _, .tt => .b true
   | _, .ff => .b false
   | ρ, .not a => vnot (evalH O σ F ρ a)
